@@ -939,10 +939,12 @@ def object_position(ctx):
         tanf = sym.sin(fy * A('pi') / C(180)) / sym.cos(fy * A('pi') / C(180))
         zatoms = sorted(z0.atoms()) if isinstance(z0, Rat) else []
         if ft == 'object_height':
-            ok = sym.eq(y0, -fy) and len(zatoms) == 1 and \
+            # the object point of normalised field Hy is at +Hy max_field,
+            # as in the real-ray generator (C03 AIM: origin (Hx, Hy) max_field)
+            ok = sym.eq(y0, fy) and len(zatoms) == 1 and \
                 zatoms[0].endswith('object_surface.geometry.cs.z') and \
                 rat_eq(z0, A(zatoms[0]))
-            what = 'object height: y0 = -Hy max_field at the object vertex'
+            what = 'object height: y0 = +Hy max_field at the object vertex'
         else:
             # chief ray (y1 = 0) passes the pupil centre at angle field_y:
             # y0 + tan(theta) (EPL - z0) = y1  (sign convention of the library:
